@@ -99,6 +99,41 @@ def judge_pairs(A, B, pairs, case, acc, sig):
     return ok
 
 
+LEG_OFFSETS = [0.0, 0.5, -0.5, 2.0, -2.0, 10.0]
+
+
+def check_leg_parallel(bname, acc, only=None):
+    """lines EXACTLY parallel to a leg of the control polygon (or to an axis), at exact offsets: the
+    polynomial whose roots are the crossings then has coefficients that vanish exactly, which is where a
+    closed-form or special-cased root finder takes its rare branches.  Every reported pair must be real."""
+    B = AB.make(bname)
+    bp = [complex(q) for q in B.bpoints()]
+    kb = type(B).__name__[0]
+    dirs = [('leg%d' % k, bp[k + 1] - bp[k], bp[k]) for k in range(len(bp) - 1) if bp[k + 1] != bp[k]]
+    dirs += [('x_axis', 1 + 0j, bp[0]), ('y_axis', 1j, bp[0]), ('chord', bp[-1] - bp[0], bp[0])]
+    for dname, d, base in dirs:
+        if d == 0:
+            continue
+        nrm = 1j * d
+        for off in LEG_OFFSETS:
+            a = base + off * nrm / 4.0 - 2 * d
+            L = Line(a, a + 5 * d)
+            case = {'what': 'leg_parallel', 'B': bname, 'direction': dname, 'offset': off}
+            if only and (only['direction'], only['offset']) != (dname, off):
+                continue
+            if kb == 'L' and (L == B or abs((B.end - B.start).real * d.imag - (B.end - B.start).imag * d.real) == 0):
+                continue        # parallel lines: overlapping or disjoint, nothing to report either way
+            for order, X, Y in (('L' + kb, L, B), (kb + 'L', B, L)):
+                r = outcome(lambda: X.intersect(Y))
+                sig = {'pair': order, 'family': 'leg_parallel', 'on_the_leg': off == 0.0}
+                acc.case(dict(case, order=order), cls='leg_parallel/%s/%s' % (order, 'nonempty' if r[0] == 'ok' and r[1] else 'empty'))
+                if r[0] != 'ok':
+                    if off != 0.0:
+                        acc.violation('intersect_raises', dict(sig, exc=r[1]), dict(case, order=order), observed=r)
+                    continue
+                judge_pairs(X, Y, r[1], dict(case, order=order), acc, sig)
+
+
 def check_config(aname, bname, fam, tA, tB, alpha, scale, acc):
     A, B = configure(aname, bname, fam, tA, tB, alpha, scale)
     if B is None:
@@ -217,12 +252,23 @@ def tier_params(tier, seed):
 def shards(tier, seed):
     out = [{'what': 'segments', 'A': a, 'B': b} for a in isect.SHAPES for b in isect.SHAPES]
     out += [{'what': 'paths', 'p1': a, 'p2': b} for a in PATHS for b in PATHS]
+    out += [{'what': 'leg_parallel', 'B': b} for b in list(AB.LINES) + list(AB.QUADS) + list(AB.CUBICS)]
+    # long paths (grids of crossings; sizes bracket 256 and 4096 segment pairs): reported T coherent with (segment, t)
+    out += [{'what': 'grid', 'size': list(sz), 'kinds': k, 'long': lg}
+            for sz in (isect.GRID_SIZES_QUICK if tier == 'quick' else isect.GRID_SIZES_THOROUGH)
+            for k in (('L',) if sz[0] * sz[1] > 1100 else ('L', 'LQC')) for lg in (False, True, 'over_zigzag')]
     return out
 
 
 def run_shard(desc, tier, seed):
     acc = core.Acc()
     tp = tier_params(tier, seed)
+    if desc['what'] == 'leg_parallel':
+        check_leg_parallel(desc['B'], acc)
+        return acc
+    if desc['what'] == 'grid':
+        isect.check_grid(desc['size'][0], desc['size'][1], desc['kinds'], desc['long'], acc, ('coherent',), 'C11')
+        return acc
     if desc['what'] == 'segments':
         for sc in tp['scales']:
             for fam in FAMILIES:
@@ -249,7 +295,7 @@ def expected_classes(tier):
     for a in 'LQCA':
         for b in 'LQCA':
             out.append('%s%s/cross/nonempty' % (a, b))
-    out += ['paths/nonempty', 'QQ/miss_1e-3/empty', 'CC/far/empty', 'CQ/node/nonempty', 'CL/node/nonempty']
+    out += ['grid/lt256', 'grid/ge256', 'grid/ge4096', 'paths/nonempty', 'QQ/miss_1e-3/empty', 'CC/far/empty', 'CQ/node/nonempty', 'CL/node/nonempty']
     return out
 
 
@@ -261,7 +307,13 @@ def space(tier, seed):
 
 def replay(case):
     acc = core.ReplayAcc()
-    if case['what'] == 'segments':
+    if case['what'] == 'leg_parallel':
+        check_leg_parallel(case['B'], acc, only=case)
+        acc.vlist = [v for v in acc.vlist if v['case'].get('order') == case.get('order')]
+    elif case['what'] == 'grid':
+        isect.check_grid(case['n_comb'], case['n_rungs'], case['kinds'], case['long_stroke'], acc, ('coherent',), 'C11')
+        acc.vlist = [v for v in acc.vlist if v['case'].get('order') == case.get('order')]
+    elif case['what'] == 'segments':
         check_config(case['A'], case['B'], case['family'], case['tA'], case['tB'], case['alpha'], case['scale'], acc)
     else:
         check_paths(case['p1'], case['p2'], complex(*case['shift']), case['rot'], acc)
